@@ -185,6 +185,17 @@ def main():
     tier = a.tier if a.tier in ("quick", "thorough") else "quick"
     prop = a.prop
     t0 = time.time()
+    # infrastructure watchdog for the whole check: a time-out is exit 2, never a violation
+    import threading
+
+    def _too_long():
+        print(f"TIMEOUT: check {prop} exceeded its overall time limit")
+        sys.stdout.flush()
+        os._exit(2)
+
+    wd = threading.Timer(1500 if tier == "quick" else 4 * 3600, _too_long)
+    wd.daemon = True
+    wd.start()
     try:
         mod = importlib.import_module("props." + prop)
     except ModuleNotFoundError:
